@@ -21,7 +21,8 @@ func init() {
 			"NOT decided: the interval computation itself (astdiff regions + Myers diff + line merging) — algorithmic, not decidable by shape; attachment of comments by go/printer." +
 			" R8 edit regions stop at the neighbours' comments (regions[i] reported as computed, monotone comment clamps, position-only classification in commentsFor); R1 also: File.Comments is only assigned the clean-up step's filtered own list." +
 			" R9 the text emitted for a file is not a window into a buffer re-used for another file (C03-R12)." +
-			" R10 the astdiff snapshot is taken with ast.NewCommentMap(fset, file, file.Comments) of the file being patched, on every path.",
+			" R10 the astdiff snapshot is taken with ast.NewCommentMap(fset, file, file.Comments) of the file being patched, on every path." +
+			" R11 adding an import leaves the other import blocks alone: call sites of astutil.AddNamedImport / AddImport (which merge all import declarations into the first) are reported — one known finding (F19).",
 		Trusted:     commonTrusted,
 		Assumptions: commonAssumptions,
 	})
@@ -38,6 +39,7 @@ func runC17(r *an.Run) {
 	// the text (and so the comments) emitted for a file is that file's
 	noTransientBufferRetained(r, "R9-kept-bytes-are-not-a-window-into-a-reused-buffer")
 	snapshotKnowsTheComments(r, "R10-the-snapshot-knows-the-comments")
+	importsAddedWithoutMerging(r, "R11-adding-an-import-leaves-other-import-blocks-alone")
 }
 
 func c17NoCommentConstructed(r *an.Run) {
